@@ -210,13 +210,15 @@ theorem linux_old_append_reordered_counterexample :
   ⟨[⟨10, .permit, false⟩, ⟨11, .deny, false⟩],
    [⟨1, .deny, true⟩, ⟨2, .permit, true⟩, ⟨3, .other, true⟩], by decide⟩
 
-/-- Code as found: a single rule is placed as by the repaired code when … it is the only one. -/
-theorem linux_old_partial (a : List Entry) (e : Entry) :
-    mergeLinuxOld a [e] = mergeLinux a [e] := by
-  unfold mergeLinuxOld mergeLinux linuxStepOld nonApp appPart
-  cases he : e.app with
-  | false => simp [he, insertBeforeTrailing_nil]
-  | true => simp [he]
+/-- Where the Linux code as found agrees with the repaired code: at most one non-APPEND rule
+(complement of F-C18b), no DROP rule in the APPEND part except as its last rule (complement of F-C18c),
+and the APPEND rules cannot slip in front of a prepended raw DROP rule (complement of the Linux case of F-C18d). -/
+theorem linux_old_partial (a b : List Entry)
+    (h1 : (nonApp b).length ≤ 1)
+    (h2 : ∀ x ∈ (appPart b).dropLast, x.isDrop = false)
+    (h3 : appPart b = [] ∨ (∃ x ∈ a, x.isDrop = false) ∨ ∀ p ∈ nonApp b, p.isDrop = false) :
+    mergeLinuxOld a b = mergeLinux a b :=
+  mergeLinuxOld_eq a b ⟨by simpa using h1, by simpa using h2, by simpa using h3⟩
 
 /-! ## PAN-OS and NSX -/
 
@@ -414,12 +416,56 @@ theorem cisco_v6_shared_name_counterexample :
    { conts := [(1, false, [⟨3, .permit, false⟩, ⟨4, .any6, false⟩])], anchors := [⟨0, 1⟩, ⟨3, 1⟩] },
    ⟨1, .permit, false⟩, by decide⟩
 
+/-- Link between the binding level and the list laws: a raw file with one binding at a place Netspoc
+also binds yields, for that ACL, exactly the list merge of Netspoc's lines with the raw lines — so
+`asa_…`/`ios_…` placement, permutation and order theorems apply to the ACL of the result. -/
+theorem cisco_single_binding_merge (dev : Dev) (a : Conf) (f : File) (k ka : Anchor) (r : List Entry)
+    (hl : f.anchors = [k]) (hm : a.anchors.find? (fun x => x.key == k.key) = some ka)
+    (hr : mergeLines dev .new (linesOf a.conts ka.acl) (linesOf f.table k.acl) = .ok r) :
+    ∃ c w, mergeCisco dev .new a f = .ok (c, w) ∧ linesOf c.conts ka.acl = r ∧ c.anchors = a.anchors := by
+  unfold mergeCisco
+  rw [hl]
+  simp only [foldExcept, ciscoStep, hm, List.contains_nil, Bool.false_eq_true, if_false, hr]
+  exact ⟨_, _, rfl, linesOf_set_same _ _ _ _, rfl⟩
+
+/-- The name used in DESIGN.md for the main statement of this part. -/
+theorem unmergeable_reported (dev : Dev) (a : Conf) (f : File) (hraw : f.isRaw = true) :
+    (∃ e, mergeCisco dev .new a f = .error e) ∨
+    ∃ c w, mergeCisco dev .new a f = .ok (c, w) ∧ ∀ ct ∈ f.conts,
+      ct.name ∈ w ∨
+      ∃ k ∈ f.anchors, k.acl = ct.name ∧ ∃ k' ∈ c.anchors, k'.key = k.key ∧
+        ∀ l ∈ ct.lines, l.known = true → l.e ∈ linesOf c.conts k'.acl :=
+  cisco_raw_lines_merged_or_reported dev a f hraw
+
 /-! Non-vacuity: the hypotheses of the conditional theorems are satisfiable. -/
+def exConf : Conf := { conts := [(1, false, [⟨10, .permit, false⟩, ⟨11, .deny, false⟩])], anchors := [⟨0, 1⟩] }
+def exRaw : File :=
+  { isRaw := true, conts := [{ name := 2, lines := [{ e := ⟨1, .permit, false⟩ }, { e := ⟨2, .deny, true⟩ }] }], anchors := [⟨0, 2⟩] }
+def exRaw2 : File := { exRaw with anchors := [⟨0, 2⟩, ⟨3, 2⟩] }
+def exV6 : File := { conts := [{ name := 1, lines := [{ e := ⟨3, .permit, false⟩ }, { e := ⟨4, .any6, false⟩ }] }], anchors := [⟨0, 1⟩] }
+-- a raw merge that succeeds and one that binds an ACL twice
+example : mergeCisco .asa .new exConf exRaw =
+    .ok ({ conts := [(1, false, [⟨1, .permit, false⟩, ⟨10, .permit, false⟩, ⟨2, .deny, true⟩, ⟨11, .deny, false⟩])],
+           anchors := [⟨0, 1⟩] }, []) := by decide
+example : exRaw2.isRaw = true ∧ exRaw2.anchors = [] ++ ⟨0, 2⟩ :: ([] ++ ⟨3, 2⟩ :: []) := by decide
+example : mergeCisco .asa .new exConf exRaw2 = .error (.onlyOnce 2) := by decide
+-- an IPv6 merge that satisfies `safeMerge`
+example : safeMerge .asa .new exConf exV6 = true := by decide
+example : (mergeCisco .asa .new exConf exV6).toBool = true := by decide
+-- name clash and parse errors
+example : mergeCisco .ios .new exConf { exRaw with conts := [{ name := 1, lines := [] }], anchors := [⟨3, 1⟩] } = .error (.nameClash 1) := by
+  decide
+example : File.parseErr .asa { exRaw with anchors := [⟨0, 7⟩] } = some (.unknownRef 7) := by decide
+
 example : (asaSplit [⟨10, .permit, false⟩] [⟨1, .deny, false⟩, ⟨2, .deny, true⟩]).1
     = nonApp [⟨1, .deny, false⟩, ⟨2, .deny, true⟩] := by decide
 example : appPart [⟨1, .deny, false⟩] = [] ∨ ∃ e ∈ (asaSplit [] [⟨1, .deny, false⟩]).2, e.isPermit = true :=
   Or.inl (by decide)
 example : ∃ e ∈ [(⟨10, .permit, false⟩ : Entry)], e.isPermit = true := ⟨_, List.mem_singleton.mpr rfl, by decide⟩
+-- the test of linux_raw.t ("Merge Linux chains") meets the hypotheses of linux_old_partial
+example : (nonApp [⟨1, .other, false⟩, ⟨2, .deny, true⟩]).length ≤ 1 ∧
+    (∀ x ∈ (appPart [⟨1, .other, false⟩, ⟨2, .deny, true⟩]).dropLast, x.isDrop = false) ∧
+    (∃ x ∈ [(⟨10, .permit, false⟩ : Entry), ⟨11, .deny, false⟩], x.isDrop = false) := by decide
 
 def obligations : List Lean.Name := [
   ``asa_merge_perm, ``asa_merge_sublist, ``asa_raw_first, ``asa_append_after_last_permit_before_trailing_deny,
@@ -434,7 +480,7 @@ def obligations : List Lean.Name := [
   ``asa_pipeline_perm, ``asa_pipeline_sublist,
   ``raw_unknown_command_reported, ``unknown_reference_reported, ``loadSpoc_reports_raw_parse_error,
   ``cisco_bound_twice_reported, ``cisco_old_bound_twice_counterexample, ``cisco_name_clash_reported,
-  ``cisco_unbound_raw_object_warned, ``cisco_raw_lines_merged_or_reported, ``cisco_unknown_subcommand_counterexample,
+  ``cisco_unbound_raw_object_warned, ``cisco_raw_lines_merged_or_reported, ``unmergeable_reported, ``cisco_single_binding_merge, ``cisco_unknown_subcommand_counterexample,
   ``cisco_netspoc_lines_kept, ``cisco_netspoc_lines_kept_partial, ``cisco_v6_shared_name_counterexample]
 
 end NA.C18
